@@ -142,7 +142,7 @@ def lean_obligations(pid, work):
         if l.startswith("THM "):
             p = l.split()
             last = p[2].split(".")[-1]
-            if not p[2].startswith("Arche.Props.") or re.match(r"(eq_\d+|eq_def|match_\d+|proof_\d+|congr_simp|sizeOf_spec|injEq|inj)$", last):
+            if not p[2].startswith("Arche.Props.") or re.match(r"(eq_\d+|eq_def|match_\d+|proof_\d+|congr_simp|sizeOf_spec|injEq|inj|brecOn|below|binductionOn|rec|recOn|casesOn)$", last):
                 continue
             thms.append((p[2], p[3:]))
     cov["obligations"] = len(thms) + 1
